@@ -18,7 +18,7 @@ RULE = (
     "random dependency-closed subset of the declarations moves into a module imported where the "
     "first moved declaration stood; recursively to depth 3; module paths are plain or dotted "
     "(sub-directories, resolved relative to the importing file; several modules may share a file name "
-    "in different directories; some files are saved with CRLF line endings; a quarter of the schemas declares "
+    "in different directories; some files are saved with CRLF line endings; for every sixth schema the single file and every file of the split are saved with a UTF-8 byte order mark (both must get the same verdict and tree); a quarter of the schemas declares "
     "some name twice, which the parser accepts).  Oracle: get_fcp(root).to_dict() has "
     "the same structs, enums, bindings (incl. default ones), services and devices as the single-file "
     "text (compared per kind as multisets; ordered equality with the inlined order is recorded).  "
@@ -194,6 +194,48 @@ def compare_split(run, i, decls, tree, root):
         run.sample({"files": files})
 
 
+def compare_bom(run, i, decls, tree, root):
+    """Every file saved with a UTF-8 byte order mark, the way some editors do: whatever the front end
+    makes of the mark, it must make the same of it in the root file and in module files - the split
+    loads iff the single file loads, and then to the same tree."""
+    bom = "\ufeff"
+    single_dir = os.path.join(root, "single")
+    os.makedirs(single_dir)
+    single = S.print_schema(decls)
+    with open(os.path.join(single_dir, "main.fcp"), "w", encoding="utf-8", newline="") as fh:
+        fh.write(bom + single)
+    split_dir = os.path.join(root, "split")
+    files = {}
+    for f in tree.files():
+        p = os.path.join(split_dir, f.relpath)
+        os.makedirs(os.path.dirname(p), exist_ok=True)
+        with open(p, "w", encoding="utf-8", newline="") as fh:
+            fh.write(bom + f.text(None))
+        files[f.relpath] = "<UTF-8 byte order mark>" + f.text(None)
+    case = {"files": files, "single_file": "<UTF-8 byte order mark>" + single, "what": "every file starts with a UTF-8 byte order mark"}
+    out = []
+    for d in (single_dir, split_dir):
+        try:
+            res, lg = PC.parse_file(os.path.join(d, "main.fcp"))
+            out.append(res)
+        except BaseException as e:
+            out.append(e)
+    verdicts = ["ok" if (not isinstance(x, BaseException) and x.is_ok()) else "rejected" for x in out]
+    run.count("bom_pairs")
+    if verdicts[0] != verdicts[1]:
+        run.violation("saved with a byte order mark the schema is %s as a single file but %s once split into modules saved the same way" % (verdicts[0], verdicts[1]), case)
+        return
+    if verdicts[0] == "ok" and multiset_dict(out[0].unwrap().to_dict()) != multiset_dict(out[1].unwrap().to_dict()):
+        run.violation("saved with a byte order mark the split schema differs from the single-file schema", case)
+        return
+    run.count("bom_pairs_%s" % ("equal" if verdicts[0] == "ok" else "both_rejected"))
+    run.case(sig="bom|%s|depth%d" % (verdicts[0], tree.depth()))
+
+
+def multiset_dict(d):
+    return {k: multiset(d.get(k, [])) for k in ("structs", "enums", "impls", "services", "devices")}
+
+
 FAULTS = ["syntax", "eof", "version", "unknown-type", "literal", "missing-nested"]
 
 
@@ -303,6 +345,10 @@ def run(run):
             os.makedirs(root)
             compare_split(run, i, decls, tree, root)
             shutil.rmtree(root)
+            if i % 6 == 1:
+                os.makedirs(root)
+                compare_bom(run, i, decls, tree, root)
+                shutil.rmtree(root)
             for fault in FAULTS:
                 if (i + FAULTS.index(fault)) % 3:
                     continue
@@ -316,13 +362,30 @@ def run(run):
 
 
 def conclude(run):
-    run.require("splits_parsed", "splits_equal", "faults_injected", "faults_reported_well", "splits_with_crlf_files", "schemas_with_duplicate_declarations",
+    run.require("bom_pairs", "splits_parsed", "splits_equal", "faults_injected", "faults_reported_well", "splits_with_crlf_files", "schemas_with_duplicate_declarations",
                 "moved/struct", "moved/enum", "moved/impl", "moved/service", "moved/device")
 
 
 def replay(run, case):
     tmp = env.scratch("c20r")
     try:
+        if "byte order mark" in case.get("what", ""):
+            mark = "<UTF-8 byte order mark>"
+            verdicts = []
+            for sub, files in (("single", {"main.fcp": case["single_file"]}), ("split", case["files"])):
+                for rel, body in files.items():
+                    p = os.path.join(tmp, sub, rel)
+                    os.makedirs(os.path.dirname(p), exist_ok=True)
+                    with open(p, "w", encoding="utf-8", newline="") as fh:
+                        fh.write(body.replace(mark, "\ufeff"))
+                try:
+                    res, lg = PC.parse_file(os.path.join(tmp, sub, "main.fcp"))
+                    verdicts.append("ok" if res.is_ok() else "rejected")
+                except BaseException:
+                    verdicts.append("rejected")
+            if verdicts[0] != verdicts[1]:
+                run.violation("saved with a byte order mark: single file %s, split %s" % tuple(verdicts), case)
+            return
         for rel, body in case["files"].items():
             p = os.path.join(tmp, rel)
             os.makedirs(os.path.dirname(p), exist_ok=True)
